@@ -3,7 +3,7 @@
    of EngineNames / EngineProofs). *)
 From Coq Require Import List String Ascii Bool Arith ZArith.
 From Helm Require Import Common.Assoc Values.Tree Render.SortLemmas Render.Pipeline Render.Files Render.Engine Render.EngineProofs
-     Render.EngineNames Render.Funcs Render.Mini Misc.PanicsRec.
+     Render.EngineNames Render.EngineEquiv Render.EngineDeps Render.Funcs Render.Mini Misc.PanicsRec.
 From Helm Require Chart.Paths.
 Import ListNotations.
 Local Open Scope string_scope.
@@ -59,3 +59,13 @@ Proof.
   split; [exact ex_wf|]. split; [vm_compute; reflexivity|].
   eexists. vm_compute. reflexivity.
 Qed.
+
+(* the same tree with the two dependencies of the root in the other order *)
+Definition ex_chart_swapped : chart :=
+  Chart "p" "" [] [Some ("templates/_h.tpl", "src:h"); None; Some ("templates/cm.yaml", "src:cm")] [] [ex_app; ex_lib].
+
+Example ex_dependency_order_witness :
+  wf_chart ex_chart /\ dperm ex_chart ex_chart_swapped /\
+  engine_render_tree VStr mset_t (m_parse ex_srcs) rst (m_exec ex_opts) m_t0 rinit ex_chart ex_top
+  = engine_render_tree VStr mset_t (m_parse ex_srcs) rst (m_exec ex_opts) m_t0 rinit ex_chart_swapped ex_top.
+Proof. split; [exact ex_wf|]. split; [apply dperm_swap|vm_compute; reflexivity]. Qed.
